@@ -28,7 +28,7 @@ pub fn gen_case(rng: &mut Rng) -> (Case, Vec<(String, String)>) {
     let mut c = random_case(rng);
     c.upgrade = false;
     c.version = *rng.pick(&[(1u8, 0u8), (1, 1), (1, 1)]);
-    let lens = [0usize, 1, 100, 8191, 8192, 8193, 32767, 32768, 32769, 100000];
+    let lens = [0usize, 1, 100, 8191, 8192, 8193, 32767, 32768, 32769, 65535, 65536, 65537, 100000, 140000];
     let thr_choices = [0usize, 1, 2, 3, 4, 5, 6];
     c.body_len = if rng.chance(1, 3) { rng.below(3000) } else { *rng.pick(&lens) };
     c.len = if rng.chance(2, 3) { Some(c.body_len) } else { None };
@@ -51,6 +51,7 @@ pub fn gen_case(rng: &mut Rng) -> (Case, Vec<(String, String)>) {
 
 pub fn check_pure(ctx: &Ctx, c: &Case, hdrs: &[(String, String)], case_seed: u64) {
     let rep = &ctx.rep;
+    crate::util::current_case(case_seed, "pure");
     let o = execute(c, case_seed, hdrs);
     let bodiless = c.head || (100..200).contains(&c.status) || c.status == 204 || c.status == 304;
     let status_class = match c.status {
